@@ -656,7 +656,24 @@ func sanitize(v interface{}) interface{} {
 		}
 		return a
 	case jsonpath.Accessor:
+		if t.Get == nil {
+			return map[string]interface{}{"$go": "jsonpath.Accessor{}"}
+		}
 		return map[string]interface{}{"$accessor": sanitize(t.Get()), "settable": t.Set != nil}
+	case json.RawMessage:
+		return map[string]interface{}{"$go": "json.RawMessage", "text": string(t)}
+	case *interface{}:
+		if t != nil {
+			return map[string]interface{}{"$go": "*interface {}", "to": sanitize(*t)}
+		}
+	case *map[string]interface{}:
+		if t != nil {
+			return map[string]interface{}{"$go": "*map[string]interface {}", "to": sanitize(*t)}
+		}
+	case *[]interface{}:
+		if t != nil {
+			return map[string]interface{}{"$go": "*[]interface {}", "to": sanitize(*t)}
+		}
 	}
 	return map[string]interface{}{"$go": reflect.TypeOf(v).String()}
 }
